@@ -501,6 +501,29 @@ class s_int(metaclass=_IntMeta):
     """``int`` as seen by the sysloss modules: int() of a proxy is 0, isinstance(x, int) unchanged."""
 
 
+class _FloatMeta(type):
+    def __instancecheck__(cls, o):
+        return isinstance(o, (float, SymReal))
+
+    def __subclasscheck__(cls, c):
+        return issubclass(c, float)
+
+    def __call__(cls, x=0.0, *a):
+        if isinstance(x, SymReal):
+            return x  # float() of a float is the identity
+        return float(x, *a)
+
+    def __eq__(cls, o):
+        return o is float or o is cls
+
+    def __hash__(cls):
+        return hash(float)
+
+
+class s_float(metaclass=_FloatMeta):
+    """``float`` as seen by the sysloss modules: float(proxy) is the proxy (identity on floats); isinstance / == float unchanged."""
+
+
 class _NullBar:
     total = 0
 
@@ -543,6 +566,7 @@ def install():
         mod.isinstance = s_isinstance
         mod.type = s_type
         mod.int = s_int
+        mod.float = s_float
     C.LinearNDInterpolator = GridInterp
     S.tqdm = _NullBar
     S.print = _null
@@ -552,7 +576,7 @@ def install():
         "np.min/max/diff/all/sum/multiply/isnan -> list versions",
         "np.interp -> piecewise-linear clamped contract model",
         "LinearNDInterpolator -> rectilinear-grid contract model (free diagonal per cell, NaN outside hull)",
-        "min/max/isinstance/type/int injected as module globals (proxy counts as float)",
+        "min/max/isinstance/type/int/float injected as module globals (proxy counts as float; float(proxy) = proxy)",
         "tqdm -> null progress bar", "rich.print -> no-op",
     ])
     return INSTALLED
